@@ -12,25 +12,31 @@ from vlib.core import Leg, Result, _hyp_settings, mix_seed, VERIF
 
 ID = 'C15'
 RULE = ('cases: nesting construct in {parentheses, brackets, CASE, function calls, subqueries, BEGIN, IF, operator/comparison/comma/dot/AS/typecast chains, unclosed '
-        'openers, stray closers, mixtures, comment-laden parentheses, CREATE..BEGIN bodies} x depth in [0.05, 3] x recursion limit x limit in {100,150,300} '
-        '(thorough adds 500,1000) x entry point in {parse, parsestream, split, format + drawn valid option set}; drawn by Hypothesis, executed in a plain-Python child '
+        'openers, stray closers, mixtures, comment-laden parentheses, CREATE..BEGIN bodies} x depth in [0.05, 3] x recursion limit x limit in {100,150,300,1000} '
+        '(thorough adds 500,3000) x entry point in {parse, parsestream, split, format + drawn valid option set}; drawn by Hypothesis, executed in a plain-Python child '
         'process whose recursion limit is set after the imports; outcome must be ok (result passes round-trip and tree invariants computed by an iterative walk, '
         'str() at the caller\'s stack depth) or SQLParseError; after every case an ordinary split/parse call must still work; a child that dies is a violation. '
-        'non-trivial: depth >= 0.5 x limit (the guard is reached); distinct by (construct, depth, limit, entry, options)')
+        'non-trivial: depth >= 0.5 x limit (the guard is reached), or depth >= 300 at the default limit 1000; distinct by (construct, depth, limit, entry, options)')
 ASSUMPTIONS = ['the child process imports sqlparse before lowering the recursion limit (an application does the same)',
                'limits below 100 leave too little stack for an ordinary call and are not used']
 
-LIMITS = {'quick': [100, 150, 300], 'thorough': [100, 150, 300, 500, 1000]}
+LIMITS = {'quick': [100, 150, 300, 1000], 'thorough': [100, 150, 300, 500, 1000, 3000]}
 ENTRIES = ['parse', 'parsestream', 'split', 'format']
 
 
 @st.composite
 def cases(draw, limit):
     shape = draw(st.sampled_from(sorted(c15_child.SHAPES)))
-    factor = draw(st.sampled_from([0.05, 0.2, 0.4, 0.5, 0.6, 0.8, 1.0, 1.2, 2.0, 3.0]))
-    depth = max(1, int(limit * factor) + draw(st.integers(-3, 3)))
-    if limit >= 500:
-        depth = min(depth, 1200)
+    if limit >= 1000:
+        # the interpreter's default limit (and above): nests that the Python-level recursion still accepts but that are deep
+        # for C-level recursion (str(), repr()); cost grows quadratically, so depths are capped
+        factor = draw(st.sampled_from([0.2, 0.3, 0.35, 0.5, 0.6, 1.1]))
+        depth = min(max(1, int(1000 * factor) + draw(st.integers(-3, 3))), 1200)
+    else:
+        factor = draw(st.sampled_from([0.05, 0.2, 0.4, 0.5, 0.6, 0.8, 1.0, 1.2, 2.0, 3.0]))
+        depth = max(1, int(limit * factor) + draw(st.integers(-3, 3)))
+        if limit >= 500:
+            depth = min(depth, 1200)
     entry = draw(st.sampled_from(ENTRIES))
     opts = draw(O.valid_options()) if entry == 'format' else {}
     return {'shape': shape, 'depth': depth, 'limit': limit, 'entry': entry, 'opts': opts}
@@ -89,7 +95,7 @@ def check(case):
         res.fail('result-invariant', out['inv'], '%s at depth %d (limit %d, %s): result violates %s' % (case['shape'], case['depth'], limit, case['entry'], out['inv']))
     if out.get('after') not in ('ok', None):
         res.fail('later-call', str(out['after']), 'an ordinary call after %s depth %d (limit %d, %s) gives %s' % (case['shape'], case['depth'], limit, case['entry'], out['after']))
-    res.nontrivial = case['depth'] >= 0.5 * limit
+    res.nontrivial = case['depth'] >= 0.5 * limit or (limit >= 1000 and case['depth'] >= 300)
     res.labels = ['outcome:' + str(oc), 'limit:%d' % limit, 'entry:' + case['entry'], 'shape:' + case['shape'] + ':' + str(oc)]
     res.sample = {'shape': case['shape'], 'depth': case['depth'], 'limit': limit, 'entry': case['entry'], 'options': case.get('opts'), 'outcome': oc}
     return res
@@ -98,6 +104,8 @@ def check(case):
 def run(tier, seed, shard, nshards, n, collector, leg):
     limits = LIMITS[tier]
     limit = limits[shard % len(limits)]
+    if limit >= 1000:
+        n = max(4, n // 4)          # deep cases at the default limit cost seconds each
     drawn = []
 
     @hseed(mix_seed(seed, ID, 'nesting', shard))
